@@ -295,9 +295,78 @@ def shape_rows():
         return None
 
 
+def state_between_calls():
+    """Reasons to believe that `getDBusEndpoints` keeps something between calls (empty list = none found).
+
+    The model's `connectMany` (Client/Lifecycle.lean) runs the connects of one process as INDEPENDENT runs over a freshly
+    parsed list; `every_connect_tries_in_written_order` rests on that.  Here the assumption is tied to the source:
+      * probe: two calls with the same reactor and address string give two distinct list objects with the same entries,
+        and consuming the first (reverse + pop, as client.connect does) leaves a third call's answer unchanged;
+      * AST: no decorator (a cache) on the two functions, no mutable default argument, no `global` / `nonlocal`, and no
+        module-level list / dict / set (or call) that the functions refer to.
+    """
+    import inspect
+    from twisted.internet.testing import MemoryReactorClock
+    from txdbus import endpoints
+    why = []
+    r = MemoryReactorClock()
+
+    def describe(eps):
+        return [(type(e).__name__, sorted(getattr(e, 'dbus_args', {}).items(), key=repr)) for e in eps]
+    for addr in ('unix:path=/tmp/a;tcp:host=h,port=1', 'unix:abstract=x', 'tcp:host=h,port=2;unix:path=/b;unix:path=/c'):
+        try:
+            a = endpoints.getDBusEndpoints(r, addr)
+            da = describe(a)
+            b = endpoints.getDBusEndpoints(r, addr)
+            if a is b:
+                why.append('two calls with %r return the same list object' % addr)
+            if describe(b) != da:
+                why.append('the second call with %r gives other entries than the first' % addr)
+            if any(x is y for x in a for y in b):
+                why.append('two calls with %r share endpoint objects' % addr)
+            a.reverse()
+            while a:
+                a.pop()
+            c = endpoints.getDBusEndpoints(r, addr)
+            if describe(c) != da:
+                why.append('after the first result of %r was consumed a later call gives other entries' % addr)
+        except Exception as e:      # noqa: BLE001
+            why.append('probe of %r raised %s' % (addr, type(e).__name__))
+    try:
+        tree = ast.parse(inspect.getsource(endpoints))
+    except Exception as e:          # noqa: BLE001
+        return why + ['source of txdbus.endpoints not readable: %s' % type(e).__name__]
+    mutable_globals = set()
+    for node in tree.body:
+        if isinstance(node, (ast.Assign, ast.AnnAssign)):
+            val = node.value
+            if isinstance(val, (ast.List, ast.Dict, ast.Set, ast.ListComp, ast.DictComp, ast.SetComp, ast.Call)):
+                tgts = node.targets if isinstance(node, ast.Assign) else [node.target]
+                for t in tgts:
+                    if isinstance(t, ast.Name):
+                        mutable_globals.add(t.id)
+    for node in tree.body:
+        if isinstance(node, ast.FunctionDef) and node.name in ('getDBusEndpoints', 'getDBusEnvEndpoints'):
+            if node.decorator_list:
+                why.append('%s has a decorator' % node.name)
+            for d in list(node.args.defaults) + [d for d in node.args.kw_defaults if d is not None]:
+                if isinstance(d, (ast.List, ast.Dict, ast.Set, ast.Call)):
+                    why.append('%s has a mutable default argument' % node.name)
+            for sub in ast.walk(node):
+                if isinstance(sub, (ast.Global, ast.Nonlocal)):
+                    why.append('%s declares %s' % (node.name, ', '.join(sub.names)))
+                if isinstance(sub, ast.Name) and sub.id in mutable_globals:
+                    why.append('%s refers to the module-level container %s' % (node.name, sub.id))
+                if isinstance(sub, ast.Attribute) and isinstance(sub.value, ast.Name) and sub.value.id in (
+                        'getDBusEndpoints', 'getDBusEnvEndpoints'):
+                    why.append('%s uses a function attribute (%s.%s)' % (node.name, sub.value.id, sub.attr))
+    return sorted(set(why))
+
+
 def emit(repo):
     del ADVISORIES[:]
     t = probe_tables()
+    state = state_between_calls()
     sr = shape_rows()
     if sr is None:
         ADVISORIES.append('endpoints.getDBusEndpoints no longer has the `if c.startswith(<str>): kind = ...; c = c[<n>:]` '
@@ -352,6 +421,12 @@ def entrySep : Char := '%s'
 def componentSep : Char := '%s'
 def keyValueSep : Char := '%s'
 
+/-- `getDBusEndpoints` keeps nothing between calls (probed: fresh list and endpoint objects per call, a consumed result
+does not change a later one; read from the source: no decorator, no mutable default, no global / nonlocal, no
+module-level container).  What `connectMany` assumes.%s -/
+def keepsNoState : Bool := %s
+
 end Txdbus.Gen.C09Endpoints
 ''' % (',\n'.join(rows), chars('unix'), chars('tcp'), ',\n'.join(rule_rows), chars(t['tcp'][0]), chars(t['tcp'][1]),
-       chars(t['words']['session']), chars(t['words']['system']), chars(t['sysdef']), es, cs, kv)
+       chars(t['words']['session']), chars(t['words']['system']), chars(t['sysdef']), es, cs, kv,
+       ''.join('\n  FOUND: ' + w.replace('-/', '- /') for w in state), 'false' if state else 'true')
